@@ -15,7 +15,7 @@ _REF = json.load(open(os.path.join(os.path.dirname(os.path.dirname(__file__)), "
 
 @rule(
     "R20a",
-    ["C01", "C11", "C14", "C06", "C04"],
+    ["C01", "C11", "C14", "C06", "C04", "C10", "C02"],
     """CLASS TAXONOMY: which optimizer rewrites apply to an operator is decided by its base classes - Elemwise (Head / Tail /
     Lengths are pushed below it, filters may pass), Blockwise (partition selections are pushed below it, it is fused),
     PartitionsFiltered - and by inherited flags. A class of the reference tree that was NOT in one of these families
@@ -63,6 +63,22 @@ def r20a(ctx):
             mem = c.provider("_simplify_up")
             ctx.bad(cid, mem.cls.module.loc(mem.node) if mem is not None else c.loc, f"{q} did not rewrite its parents on the reference tree (no _simplify_up rule, or one that only returns None) and now resolves _simplify_up to {mem.cls.qual if mem else '?'}._simplify_up, which does: projections / filters / selections are now pushed across an operator for which that was never confirmed")
     ctx.floor("classes without a parent-rewriting rule", ni, 45)
+    # reductions that are never planned as a tree (should_shuffle is the constant True)
+    from sa.families import always_shuffle
+
+    ref_as = set(_REF.get("always_shuffle", []))
+    now_as = always_shuffle(model)
+    for q in sorted(ref_as):
+        c = next((k for k in model.expr_classes() if k.qual == q), None)
+        if c is None:
+            continue
+        cid = f"{q}:family:always_shuffle"
+        if q in now_as:
+            ctx.ok(cid, c.loc)
+        else:
+            mem = c.provider("should_shuffle")
+            ctx.bad(cid, mem.cls.module.loc(mem.node) if mem is not None else c.loc, f"{q} always collected whole groups through a shuffle on the reference tree; its should_shuffle is no longer the constant True, so it can be planned as a tree reduction whose combine stage aggregates partial groups (a median of medians)")
+    ctx.floor("always-shuffle reductions", len(ref_as), 1)
     ctx.floor("family memberships", n, 250)
 
 
